@@ -148,16 +148,65 @@ def model_search_algebra(ctx, n=200):
     return trees[bad[0]] if bad else None
 
 
+def zl(vals, chunk=200):
+    """Coq `list Z` literal that the parser survives (nested chunks)"""
+    if len(vals) <= chunk:
+        return "[%s]" % ";".join(str(v) for v in vals)
+    return "(concat [%s])" % ";\n".join("[%s]" % ";".join(str(v) for v in vals[i:i + chunk]) for i in range(0, len(vals), chunk))
+
+
+def drawpix_correspondence(ctx, binp):
+    """Extension round 4: the byte arithmetic of the layer composite (Model/Compose8.v over8 = Blend8.over_u8) against the real
+    tiny-skia draw_pixmap with render_group's paint, on all 256 x 256 (s, sa) pairs for destination byte 0 or 255 and a random
+    one (thorough: 0, 255 and four random ones); compared inside Coq (8 s per destination byte on a loaded machine).  Returns the number of tables compared."""
+    ds = sorted(set([255 * ctx.rng.below(2), 1 + ctx.rng.below(254)] if ctx.tier == 'quick' else [0, 255] + [1 + ctx.rng.below(254) for _ in range(4)]))
+    outs = ctx.rvh_batch(binp, 'c14-drawpix', [str(d) for d in ds])
+    terms = []
+    for d, o in zip(ds, outs):
+        try:
+            r = json.loads(o)
+        except (TypeError, ValueError):
+            r = {}
+        if 't' not in r or not r.get('uniform') or not r.get('frame_ok') or len(r['t']) != 65536 or len(r['ta']) != 65536:
+            ctx.violation("c14-drawpix: the layer composite treats r, g, b differently, touches pixels outside the layer, or the op failed "
+                          "(d = %d): %s" % (d, str({k: v for k, v in r.items() if k not in ('t', 'ta')})[:200]),
+                          dict(op='c14-drawpix', d=d))
+            continue
+        terms.append("(verdict (diff_indices (drawpix_table (fun s sa => over_u8 s sa %d)) %s))" % (d, zl(r['t'])))
+        terms.append("(verdict (diff_indices (drawpix_table (fun s sa => over_u8 sa sa %d)) %s))" % (d, zl(r['ta'])))
+        ctx.note_case("drawpix/%d" % d, nontrivial=True)
+    if not terms:
+        return 0
+    rcode, out = ctx.coq_eval('drawpix', "Local Open Scope Z_scope.\nEval vm_compute in [%s].\n" % ";\n".join(terms),
+                              ['Model.Base', 'Model.Blend8', 'Model.Compose8'], timeout=600)
+    v = ctx.parse_N_list(out) if rcode == 0 else None
+    if v is None:
+        ctx.violation("c14-drawpix: the model could not be evaluated: %s" % out[-400:], dict(op='c14-drawpix', ds=ds), found_input=False)
+        return 0
+    for i, x in enumerate(v):
+        if x != 0:
+            d = ds[i // 2]
+            idx = x - 1
+            ctx.violation("C14_quantisation / C14_draw_pixmap_rounds_over tie: tiny-skia's draw_pixmap (render_group's layer paint) disagrees with "
+                          "over_u8 on the %s channel: source (s=%d, sa=%d) over destination byte %d"
+                          % ('colour' if i % 2 == 0 else 'alpha', min(idx % 256, idx // 256), idx // 256, d),
+                          dict(op='c14-drawpix', d=d, s=min(idx % 256, idx // 256), sa=idx // 256, channel='colour' if i % 2 == 0 else 'alpha'))
+    return len(v)
+
+
 def run(ctx):
     rng = ctx.rng
     quick = ctx.tier == 'quick'
     ctx.cov['trusted_base'] = vlib.BASE_TRUSTED + [
-        "tiny-skia (rasteriser, draw_pixmap source-over with opacity, path clipper): unmodelled; observed by the pixel oracle only",
+        "tiny-skia rasteriser, path clipper, draw_pixmap with opacity < 1: unmodelled; observed by the pixel oracle only",
+        "tiny-skia draw_pixmap (SourceOver, opacity 1, Nearest) hand-modelled as Blend8.over_u8; compared on all 65 536 (s, sa) pairs "
+        "for 2 (thorough: 6) destination bytes per run (c14-drawpix); the layer paint literal of render_group is checked by tools/gen_filterpos.py",
         "tiny_skia_path::Rect::to_int_rect, IntRect::from_xywh/from_ltrb hand-modelled (Model/RenderPrims.v, Model/Base.v), tied by the layer-trace correspondence",
         "usvg layer_bounding_box (the content box handed to render_group) is an input of the model (C12's subject)",
     ]
     ctx.assumptions = [
-        "per-pixel compositing is exact rational source-over; 8-bit quantisation (+-1 per layer) is observed, not proved",
+        "C14_layer_invisible*: exact rational source-over; the 8-bit layer composite is within 1/2 level of it (C14_draw_pixmap_rounds_over) "
+        "and n draws through a layer are within (3n-1)/2 levels of direct painting (C14_quantisation; children composited by draw_pixmap)",
         "C14_layer_covers_content / C14_nested_layer_covers_content: device box within +-2^29 (outside: C14_layer_covers_content_refuted, class huge-group-dropped)",
         "content uses normal blending (documents with mix-blend-mode other than normal are skipped by the oracle)",
     ]
@@ -165,7 +214,7 @@ def run(ctx):
     res = ctx.coq_props()
     proof_ok = res['ok'] and not broken
     # the model files the correspondence evaluates (also when a proof file no longer compiles)
-    ctx.coq_build(['Model/Corr.v', 'Model/Render.v', 'Model/Compose.v'])
+    ctx.coq_build(['Model/Corr.v', 'Model/Render.v', 'Model/Compose.v', 'Model/Compose8.v'])
 
     binp, blog = ctx.harness('release')
     if binp is None:
@@ -174,6 +223,34 @@ def run(ctx):
         return
 
     files = vlib.corpus_files()
+
+    # ------------------------------------------------------------------ K: the 8-bit layer composite (extension round 4)
+    ntab = drawpix_correspondence(ctx, binp)
+    ctx.cov['drawpix_tables'] = ntab
+    # known class layer-requantisation: the witness of C14_quantisation_two_attained replayed on the real draw_pixmap.  Expected:
+    # 178 directly, 180 through the layer (2 levels: within the proved (3n-1)/2 for n = 2, beyond the property's +-1).
+    # Equal results = the class is gone; anything else (beyond the proved bound, or other numbers) = a different violation.
+    o = ctx.rvh_batch(binp, 'c14-drawpix', ['seq:252,252,252,255;21,21,21,30;45,45,45,115'])[0]
+    try:
+        rq = json.loads(o)
+    except (TypeError, ValueError):
+        rq = {}
+    ctx.cov['requantisation_probe'] = rq
+    rrep = dict(op='c14-drawpix', payload='seq:252,252,252,255;21,21,21,30;45,45,45,115', result=rq)
+    if 'direct' not in rq:
+        ctx.violation("c14-drawpix seq: the requantisation witness could not be replayed: %s" % str(rq)[:200], rrep)
+    else:
+        dmax = max(abs(a - b) for a, b in zip(rq['direct'], rq['layered']))
+        if rq['direct'] == [178, 178, 178, 255] and rq['layered'] == [180, 180, 180, 255]:
+            ctx.known_or_violation('layer-requantisation', "two translucent children (21,a30), (45,a115) over 252: 178 painted directly, 180 through "
+                                   "an 8-bit layer (2 levels > the property's +-1; proved bound (3n-1)/2 = 2)", rrep)
+        elif dmax > 2:
+            ctx.violation("C14_quantisation: the real draw_pixmap exceeds the proved bound (3n-1)/2 = 2 for two children: direct %s, layered %s"
+                          % (rq['direct'], rq['layered']), rrep)
+        elif dmax > 0:
+            ctx.violation("C14_quantisation_two_attained: the real draw_pixmap gives direct %s, layered %s where the model says 178 / 180"
+                          % (rq['direct'], rq['layered']), rrep)
+    ctx.log("c14-drawpix: %d exhaustive 256x256 tables agree with over_u8" % ntab)
 
     # ------------------------------------------------------------------ K: layer-trace correspondence
     nfiles = 500 if quick else len(files)
